@@ -23,7 +23,7 @@ for d in sorted(glob.glob(f'{ROOT}/seeded/C*')):
     rows.append((os.path.basename(d), (m.get('summary') or '')[:150].replace('|','/').replace('\n',' '), det.get('result','not run'), (det.get('first_violation') or det.get('first_inconclusive') or '')))
 if rows:
     out.append('### 0.9 Seeded regressions (independent sub-agents) and which check catches them (generated)\n')
-    out.append('Each was produced by a sub-agent that saw only the property text and a scratch worktree, and was kept only after confirmation in a scratch worktree (demo fails with the patch, passes without, pinned suite passes with the patch). `dev/seeded.py detect` applies the patch to /repo, runs `./check <id> quick`, and undoes it.\n')
+    out.append('Each was produced by a sub-agent that saw only the property text and a scratch worktree, and was kept only after confirmation in a scratch worktree (demo fails with the patch, passes without, pinned suite passes with the patch). `dev/seeded.py detect` applies the patch to a scratch worktree of /repo HEAD and runs the registered `./check <id> quick` against it (VERIF_REPO). m1/m2: first round; m3/m4: second round, produced after the whole-file harnesses existed.\n')
     out.append('| seeded id | change | result of ./check <id> quick | caught by |')
     out.append('|---|---|---|---|')
     for sid,summ,res,viol in rows:
